@@ -483,8 +483,26 @@ class TE:
             k >>= 1
         return R
 
+    def lift_ext(self, t, rng, from_x=False):
+        """extension base field: a curve point with this y (from_x: with this x), any sign"""
+        F = self.F
+        t2 = F.mul(t, t)
+        if from_x:      # y^2 = (1 - a x^2) / (1 - d x^2)
+            num, den = F.sub(F.one(), F.mul(self.a, t2)), F.sub(F.one(), F.mul(self.d, t2))
+        else:           # x^2 = (1 - y^2) / (a - d y^2)
+            num, den = F.sub(F.one(), t2), F.sub(self.a, F.mul(self.d, t2))
+        if den == F.zero():
+            return None
+        rs = p_roots(F, [F.neg(F.mul(num, F.inv(den))), F.zero(), F.one()], rng)
+        if not rs:
+            return None
+        o = rng.choice(rs)
+        return (t, o) if from_x else (o, t)
+
     def lift(self, y, rng):
         F, p = self.F, self.F.p
+        if F.deg != 1:
+            return self.lift_ext(y, rng)
         den = (self.a - self.d * y * y) % p
         if den == 0:
             return None
@@ -584,14 +602,15 @@ def sw_points_sparse_y(E, rng, n):
 def te_points(E, rng, n):
     F, c = E.F, E.c
     p = F.p
-    pts = [((0, 1), 'identity'), ((0, p - 1), 'x=0,y=-1'), (E.G, 'G'), ((F.neg(E.G[0]), E.G[1]), '-G')]
+    pts = [((F.zero(), F.one()), 'identity'), ((F.zero(), F.neg(F.one())), 'x=0,y=-1'), (E.G, 'G'),
+           ((F.neg(E.G[0]), E.G[1]), '-G')]
     for _ in range(n):
         k = rng.choice([2, 3, c['r'] - 2, rng.randrange(1, c['r']), rng.randrange(1, 1 << 20)])
         pts.append((E.mul(k, E.G), 'kG'))
-    P0 = E.lift(0, rng)                           # y = 0: x^2 = 1/a
+    P0 = E.lift(F.zero(), rng)                    # y = 0: x^2 = 1/a
     if P0:
         pts.append((P0, 'te_y=0'))
-    if p < 1000:                                  # toy field: every point of the curve
+    if p < 1000 and F.deg == 1:                   # toy field: every point of the curve
         for y in range(p):
             P = E.lift(y, rng)
             if P:
@@ -599,9 +618,41 @@ def te_points(E, rng, n):
                 if P[0]:
                     pts.append((((-P[0]) % p, y), 'all_points'))
     for _ in range(n):
-        P = E.lift(rng.randrange(p), rng)
+        P = E.lift(F.rand(rng), rng)
         if P:
             pts.append((P, 'on_curve_any'))
+    if F.deg >= 2:
+        pts += te_points_sparse_x(E, rng, n)
+    return pts
+
+
+def te_points_sparse_x(E, rng, n):
+    """Curves over Fp2: points whose x has vanishing coordinates (x prescribed, y solved), both signs, so that the
+    sign flag `x <= -x` is decided by the lower coordinate; and points with y in the prime subfield (the coordinate
+    that carries the flag byte has c1 = 0).  Generally outside the prime-order subgroup."""
+    F, p, deg = E.F, E.F.p, E.F.deg
+    pts = []
+    want = n + 1
+    for c0 in [(p - 1) // 2, 1, 2, 3, p - 2] + [rng.randrange(1, p) for _ in range(4 * want)]:
+        if want == 0:
+            break
+        P = E.lift_ext(F.el([c0] + [0] * (deg - 1)), rng, from_x=True)
+        if P:
+            pts += [(P, 'x_in_subfield'), ((F.neg(P[0]), P[1]), 'x_in_subfield')]
+            want -= 1
+    for mask in range(2, (1 << deg) - 1):
+        for _ in range(8):
+            x = F.el([rng.randrange(1, p) if (mask >> i) & 1 else 0 for i in range(deg)])
+            P = E.lift_ext(x, rng, from_x=True)
+            if P:
+                cl = 'x_sparse/' + ''.join('x' if (mask >> i) & 1 else '0' for i in range(deg))
+                pts += [(P, cl), ((F.neg(P[0]), P[1]), cl)]
+                break
+    for _ in range(8):
+        P = E.lift_ext(F.el([rng.randrange(1, p)] + [0] * (deg - 1)), rng)
+        if P:
+            pts.append((P, 'y_in_subfield'))
+            break
     return pts
 
 
@@ -666,12 +717,21 @@ def gen_points(rng, scale):
             E = SW(c)
             F = E.F
             pts = sw_points(E, rng, n)
+            if F.deg >= 2 and F.p < 1000:             # toy extension field: a larger sample of the whole curve
+                for _ in range(40 if scale == 1 else 400):
+                    x = F.rand(rng)
+                    ys = p_roots(F, [F.neg(E.rhs(x)), F.zero(), F.one()], rng)
+                    if ys:
+                        pts.append(((x, rng.choice(ys)), 'toy_on_curve_any'))
+            # base prime field whose top byte cannot hold the two flag bits: they go into an extra byte
+            spill = c['p'].bit_length() % 8 in (0, 7)
+            pre = ('sw_ext_nospare/' if F.deg >= 2 else 'sw_nospare/') if spill else ''
             for P, cl in pts:
                 for comp in (0, 1):
                     if P is None:
-                        yield 'sw_ser', curve_args(cid, comp, 0, 0) + [F.co(F.zero()), F.co(F.zero()), [1]], 'ser/aff/' + cl
+                        yield 'sw_ser', curve_args(cid, comp, 0, 0) + [F.co(F.zero()), F.co(F.zero()), [1]], pre + 'ser/aff/' + cl
                     else:
-                        yield 'sw_ser', curve_args(cid, comp, 0, 0) + [F.co(P[0]), F.co(P[1]), [0]], 'ser/aff/' + cl
+                        yield 'sw_ser', curve_args(cid, comp, 0, 0) + [F.co(P[0]), F.co(P[1]), [0]], pre + 'ser/aff/' + cl
                     # projective representatives: Z = 1 branch, generic Z, Z = 0 (any X, Y)
                     for zc in ('z1', 'zrand', 'zsmall'):
                         if P is None:
@@ -684,20 +744,25 @@ def gen_points(rng, scale):
                                 lam = F.one()
                             l2 = F.mul(lam, lam)
                             X, Y, Z = F.mul(P[0], l2), F.mul(P[1], F.mul(l2, lam)), lam
-                        yield 'sw_ser', curve_args(cid, comp, 0, 1) + [F.co(X), F.co(Y), F.co(Z)], 'ser/proj/%s/%s' % (zc, cl)
+                        yield 'sw_ser', curve_args(cid, comp, 0, 1) + [F.co(X), F.co(Y), F.co(Z)], pre + 'ser/proj/%s/%s' % (zc, cl)
                     bs = E.enc(P, comp)
                     for val in (0, 1):
                         for proj in (0, 1):
-                            yield 'sw_de', curve_args(cid, comp, val, proj) + [bs], 'de/valid/%s/c%dv%dp%d' % (cl, comp, val, proj)
+                            yield 'sw_de', curve_args(cid, comp, val, proj) + [bs], pre + 'de/valid/%s/c%dv%dp%d' % (cl, comp, val, proj)
                     for _ in range(2 if scale == 1 else 5):
                         mb, mc = mutate_point_bytes(rng, E, bs, comp)
-                        yield 'sw_de', curve_args(cid, comp, rng.randrange(2), rng.randrange(2)) + [mb], 'de/%s/c%d' % (mc, comp)
+                        yield 'sw_de', curve_args(cid, comp, rng.randrange(2), rng.randrange(2)) + [mb], pre + 'de/%s/c%d' % (mc, comp)
         else:
             E = TE(c)
             F = E.F
             pts = te_points(E, rng, n)
             # base fields without a spare bit in the top byte: the x-sign flag needs an extra byte
-            pre = 'te_nospare/' if c['p'].bit_length() % 8 == 0 else ''
+            pre = ('te_ext_nospare/' if F.deg >= 2 else 'te_nospare/') if c['p'].bit_length() % 8 == 0 else ''
+            if F.deg >= 2 and F.p < 1000:             # toy extension field: a larger sample of the whole curve
+                for _ in range(40 if scale == 1 else 400):
+                    P = E.lift(F.rand(rng), rng)
+                    if P:
+                        pts.append((P, 'toy_on_curve_any'))
             for P, cl in pts:
                 for comp in (0, 1):
                     yield 'te_ser', curve_args(cid, comp, 0, 0) + [F.co(P[0]), F.co(P[1])], pre + 'ser/aff/' + cl
@@ -716,7 +781,14 @@ def gen_points(rng, scale):
                     for _ in range(2 if scale == 1 else 5):
                         mb, mc = mutate_point_bytes(rng, E, bs, comp)
                         yield 'te_de', curve_args(cid, comp, rng.randrange(2), rng.randrange(2)) + [mb], pre + 'de/%s/c%d' % (mc, comp)
-            if c['p'] < 256:
+            if c['p'] < 256 and F.deg == 2:
+                # toy extension field: random (y.c0, y.c1) byte pairs (incl. bytes >= p) x a set of flag bytes
+                for _ in range(150 if scale == 1 else 1500):
+                    y0, y1 = rng.randrange(256), rng.randrange(256)
+                    for last in (0, 0x80, 1, 0x40, 0xc0, 0x7f, 0xff):
+                        yield 'te_de', curve_args(cid, 1, rng.randrange(2), rng.randrange(2)) + [[y0, y1, last]], \
+                            pre + 'de/toy_bytes/last%02x' % last
+            if c['p'] < 256 and F.deg == 1:
                 # toy field: every y byte x a set of flag bytes (only 0x00 / 0x80 are canonical)
                 for y in range(256):
                     for last in (0, 0x80, 1, 0x40, 0xc0, 0x7f, 0xff):
@@ -754,11 +826,18 @@ RULE = ('prime fields with every residue of MODULUS_BIT_SIZE mod 8 (0..7 spare b
         'Fp2/Fp3: points with y in the prime subfield / with every other pattern of zero coordinates (x solved from y), '
         'y = 0; the ordering itself (cmp, partial_cmp, <, <=, >, >=) on all towers for y vs -y with zero high coordinates, '
         'equal high coordinates, neighbours; twisted Edwards curves over 8/16/64/128/256-bit base fields with no spare '
-        'bit (flag in an extra byte) incl. all points of a curve over F_251; non-trivial = '
+        'bit (flag in an extra byte) incl. all points of a curve over F_251; '
+        'extension towers over base fields whose top byte cannot hold the flags (Fp2 over 8/15/16/63/64/127/128/192/'
+        '255(x3)/256(x4)-bit primes, Fp3 over 16/63/127/128/255/256, Fp4 over 16/64/128/255, Fp6 = 3 over 2 over '
+        '8/16/64/192/256, Fp6 = 2 over 3 over 16/128 bits): the flags of the last coefficient spill into an extra byte, '
+        'advertised size vs bytes written for every flag type; SW curves over the 64-bit prime field and over Fp2 of '
+        '8/63/64/255/256-bit primes, TE curves over Fp2 of 8/16/64/256-bit primes (x prescribed with zero coordinates, '
+        'y in the subfield, samples of the whole toy curves); non-trivial = '
         'the payload has a non-zero entry; distinct = distinct case lines')
 TRUSTED = ['props/C09/configs.json (curve/field constants dumped from the compiled crates; re-compared with the compiled '
            'constants by the harness in every case)',
            'props/C09/mkte.py (derivation of the twisted-Edwards configurations defined in harness/src/bin/c09.rs)',
+           'props/C09/mkext.py (derivation of the extension towers and the curves over them defined in harness/src/bin/c09.rs)',
            'the byte strings of the decode stream are generator inputs (built by prop.py), not expected values']
 ASSUMPTIONS = ['a field element is modelled by its standard-form integer (into_bigint / from_bigint of C01)',
                'reader = slice reader (read_exact fails with UnexpectedEof on short input); writer = Vec (never fails)',
